@@ -190,7 +190,7 @@ TIE_VIEWS = {"Sma": ["sma"], "Ema": ["ema", "emaa"], "Cumulative": ["cum"], "Roc
              "Echo": ["echo"], "Constant": ["const"], "Tanh": ["tanh"], "Add": ["add"], "Subtract": ["sub"], "Multiply": ["mul"],
              "Divide": ["div"], "Min": ["min"], "Max": ["max"], "SuperSmoother": ["ss"], "WelfordOnline": ["wo"], "Vst": ["vst"],
              "Vsct": ["vsct"], "Rsi": ["rsi"], "MyRSI": ["myrsi"], "BinaryEntropy": ["bent"], "RoofingFilter": ["roof"],
-             "Alma": ["alma", "almac"]}
+             "Alma": ["alma", "almac"], "LaguerreFilter": ["lagf"]}
 # SF/GenEq/Transfer.lean: (theorem, generated view) per property -- `Realises (generated view over Echo) (batch definition)`
 TRANSFER = {
     "C02": [("sma_rust", "Sma"), ("cumulative_rust", "Cumulative"), ("min_rust", "Min"), ("max_rust", "Max"), ("roc_rust", "Roc"),
